@@ -102,3 +102,102 @@ def c16_stages(tier, rng):
 def c07_stages(tier, rng):
     return [Stage("beyond_partition_views", "Trace_Extras", extrarun.run_pviews, lambda: pviews_cases(tier, rng),
                   lambda r: len(r["P"]) >= 2, extrarun.init)]
+
+
+# ------------------------------------------------------------------ files, folders, selector, dataset views
+COMMENTS = ["% a comment", "%", "%[[1], [2]]", "%% [{9}]"]
+SHORTS = ["", "[]", "ab", "  ", "1", "{}"]
+FILE_NAMINGS = ["ints", "letters", "zero", "big", "mixed2"]
+
+
+def _rand_lines(rng, ps, nmax=5):
+    lines = []
+    for _ in range(rng.randint(1, nmax)):
+        u = rng.random()
+        if u < .6:
+            r = rng.choice(ps)
+            line = {"k": "ranking", "r": r, "brace": rng.randint(0, 1), "sep": rng.choice([", ", ",", " , "]),
+                    "prefix": rng.choice(["", "", "r1 : ", "x:"])}
+            if rng.random() < .3:
+                line["cont"] = rng.randint(1, 12)
+            lines.append(line)
+        elif u < .8:
+            lines.append({"k": "comment", "text": rng.choice(COMMENTS)})
+        else:
+            lines.append({"k": "short", "text": rng.choice(SHORTS)})
+    return lines
+
+
+def fileg_cases(tier, rng):
+    ps = grids.partial(3) + [p for p in grids.partial(4) if sum(len(b) for b in p) == 4][::5]
+    out = []
+    readers = ["from_file", "get_dataset_from_file", "consensus"]
+    # every single ranking between every pair of other line kinds
+    c = 0
+    for r in ps:
+        for before in (None, {"k": "comment", "text": COMMENTS[c % 4]}, {"k": "short", "text": SHORTS[c % 6]}):
+            lines = ([before] if before else []) + [{"k": "ranking", "r": r, "brace": c % 2, "sep": ", ", "prefix": ""}]
+            if c % 3 == 0:
+                lines.append({"k": "short", "text": SHORTS[(c // 3) % 6]})
+            if c % 4 == 1:
+                lines.append({"k": "ranking", "r": ps[(c * 7) % len(ps)], "brace": 1, "sep": ", ", "prefix": "",
+                              "cont": 1 + c % 9})
+            out.append({"lines": lines, "naming": FILE_NAMINGS[c % len(FILE_NAMINGS)], "ne": 4, "reader": readers[c % 3],
+                        "final_newline": 1 if c % 5 else 0})
+            c += 1
+    for _ in range(600 if tier == "quick" else 8000):
+        out.append({"lines": _rand_lines(rng, ps), "naming": FILE_NAMINGS[c % len(FILE_NAMINGS)], "ne": 4,
+                    "reader": readers[c % 3], "final_newline": rng.randint(0, 1)})
+        c += 1
+    return out
+
+
+def folder_cases(tier, rng):
+    ps = [p for p in grids.partial(3) if p]
+    out = []
+    for c in range(60 if tier == "quick" else 600):
+        keys = rng.sample(range(0, 200), rng.randint(1, 5))
+        files = []
+        for k in keys:
+            lines = _rand_lines(rng, ps, 4)
+            if not any(l["k"] == "ranking" for l in lines):
+                lines.append({"k": "ranking", "r": rng.choice(ps), "brace": 1, "sep": ", ", "prefix": ""})
+            files.append({"key": k, "lines": lines})
+        out.append({"files": files, "naming": FILE_NAMINGS[c % len(FILE_NAMINGS)], "ne": 4, "slash": c % 2})
+    return out
+
+
+def select_cases(tier, rng):
+    dss = grids.datasets(3, 2)
+    out = []
+    INF = 1000000
+    for c in range(400 if tier == "quick" else 5000):
+        Ds = [rng.choice(dss) for _ in range(rng.randint(0, 6))]
+        if c % 7 == 0 and Ds:
+            Ds.append(Ds[0])           # equal datasets as distinct objects
+        b = {"emin": rng.choice([0, 0, 1, 2, 3]), "emax": rng.choice([INF, INF, 1, 2, 3]),
+             "rmin": rng.choice([0, 0, 1, 2]), "rmax": rng.choice([INF, INF, 1, 2])}
+        out.append({"Ds": Ds, "b": b, "naming": NAMINGS[c % len(NAMINGS)], "ne": 3, "explicit": c % 2})
+    return out
+
+
+def dviews_cases(tier, rng):
+    dss = grids.datasets(3, 2)
+    out = []
+    for c, D in enumerate(dss if tier == "thorough" else dss[::2]):
+        out.append({"D": D, "ne": 4, "naming": NAMINGS[c % len(NAMINGS)], "how": [0, 1, 2, 3, 6][c % 5]})
+    return out
+
+
+def c18_stages(tier, rng):
+    return [Stage("beyond_file_grammar", "Trace_Extras", extrarun.run_fileg, lambda: fileg_cases(tier, rng),
+                  lambda r: sum(1 for l in r["lines"] if l["k"] == "ranking") >= 1 and len(r["lines"]) >= 2, extrarun.init),
+            Stage("beyond_folder", "Trace_Extras", extrarun.run_folder, lambda: folder_cases(tier, rng),
+                  lambda r: len(r["files"]) >= 2, extrarun.init)]
+
+
+def c17_stages(tier, rng):
+    return [Stage("beyond_dataset_selector", "Trace_Extras", extrarun.run_select, lambda: select_cases(tier, rng),
+                  lambda r: len(r["Ds"]) >= 2, extrarun.init),
+            Stage("beyond_dataset_views", "Trace_Extras", extrarun.run_dviews, lambda: dviews_cases(tier, rng),
+                  lambda r: len(r["D"]) >= 2, extrarun.init)]
